@@ -28,6 +28,7 @@ type parseResult struct {
 	payload  string
 	pos      bool
 	hasLine  bool   // the error names a line
+	raw      string // the whole error text
 	msg      string // message without prefix and position
 	panicked string
 }
@@ -107,7 +108,7 @@ func implParse(q string) (res parseResult) {
 	}
 	msg := err.Error()
 	if m := rePos.FindStringSubmatch(strings.ReplaceAll(msg, "\n", "\x00")); m != nil {
-		r := parseResult{pos: true, line: 1}
+		r := parseResult{pos: true, line: 1, raw: msg}
 		if m[1] != "" {
 			r.line, _ = strconv.Atoi(m[1])
 			r.hasLine = true
@@ -117,7 +118,7 @@ func implParse(q string) (res parseResult) {
 		r.kind, r.payload = classify(r.msg)
 		return r
 	}
-	r := parseResult{pos: false}
+	r := parseResult{pos: false, raw: msg}
 	r.msg = strings.TrimPrefix(msg, "cannot parse expression: ")
 	r.kind = "other"
 	return r
@@ -325,6 +326,22 @@ func parseOracles(q string, r parseResult, shifts []int, add func(violation)) {
 			v("C02", "closed-literal-reported-as-unclosed", fmt.Sprintf("line %d col %d", r.line, r.col))
 		}
 	}
+	if !r.ok {
+		// the public entry point reports the very same error (Prepare, called for one query after the
+		// other in this process, as an application does)
+		perr := func() (e error) {
+			defer func() {
+				if rec := recover(); rec != nil {
+					e = fmt.Errorf("PANIC %v", rec)
+				}
+			}()
+			_, e = sqlair.Prepare(q)
+			return e
+		}()
+		if perr == nil || perr.Error() != r.raw {
+			v("C19", "prepare-reports-another-error-than-the-parser-alone", fmt.Sprintf("Prepare: %v; parser: %s", perr, r.raw))
+		}
+	}
 	if !r.ok && r.pos {
 		// C19 in range
 		n, lens := lineInfo(q)
@@ -334,7 +351,7 @@ func parseOracles(q string, r parseResult, shifts []int, add func(violation)) {
 		if n > 1 && !r.hasLine {
 			v("C19", "no-line-for-a-query-of-several-lines", fmt.Sprintf("col %d (lines %d): %s", r.col, n, r.msg))
 		}
-	} else {
+	} else if !r.ok {
 		// C19: every parse error names a column (and a line when the query has several)
 		v("C19", "parse-error-without-position", r.msg)
 	}
